@@ -15,7 +15,7 @@ def tier(runs, budget_s, shrink_s=15, recheck=50, workers=16):
     return {"runs": runs, "budget_s": budget_s, "shrink_s": shrink_s, "recheck": recheck, "workers": workers}
 
 CHECKS = {}
-HOOK_COMMITS = ["3be429e", "7e2608d"]
+HOOK_COMMITS = ["3be429e", "7e2608d", "61c0b23", "eac9293"]
 
 def check(pid, **kw):
     kw.setdefault("level", "exploration")
@@ -46,11 +46,11 @@ check("C33",
 )
 
 check("C28",
-    pkg="nebula", engine="A-netsim", scenarios=["C28.mesh"],
+    pkg="nebula", engine="A-netsim", scenarios=["C28.mesh", "C28.gosched"], scenario_weight={"C28.gosched": 2},
     quick=tier(1500, 35), thorough=tier(60000, 900, shrink_s=120),
     technique="deterministic whole-overlay simulation (real nodes, simulated network/clock/tun, seeded faults and operator) with the hostmap invariant evaluated on every node after every event",
     rule="one run = a 2-4 node overlay (static or lighthouse discovery, multi-address peers, both curves) living 20-60 s (thorough: up to 230 s) of simulated time under drop/dup/reorder/delay/partition/stall/sendto faults, rehandshakes, closes, restarts, restarts with a re-issued certificate sharing only some addresses, direct deletes and promotions (including promotion right after deletion); distinct = distinct abstract trace hash; non-trivial = some address held >= 3 simultaneous tunnels",
-    level_text="Seeded search over tunnel add/remove/promote/relay histories produced by real handshakes and teardown paths on real nodes; after every simulator event every node's Hosts/moreHosts/Indexes/RemoteIndexes/Relays are checked against the statement (primary heads its list, <=5 distinct live owners, everything reachable is live, removed tunnels unreachable forever, DeleteHostInfo's reported value equals ground truth computed before the call). Evidence, not proof.",
+    level_text="Seeded search over tunnel add/remove/promote/relay histories produced by real handshakes and teardown paths on real nodes; after every simulator event every node's Hosts/moreHosts/Indexes/RemoteIndexes/Relays are checked against the statement (primary heads its list, <=5 distinct live owners, everything reachable is live, removed tunnels unreachable forever, DeleteHostInfo's reported value equals ground truth computed before the call). Evidence, not proof. Plus engine B node-level interleavings (scenario C28.gosched): after a tape-drawn single-threaded prelude on a fault-free pair (pending handshake with queued packets / reply in flight / crossing handshakes / established), the roles of each node (udp reader delivering the held datagrams, tun reader sending marker packets, handshake timer, connection-manager tick, a control call) run as real goroutines parked at every lock acquisition of HostMap / HandshakeManager / per-handshake / LightHouse / RemoteList / RelayState / conntrack mutexes (verifRWMutex, tag verif) and released one at a time from the tape; then the pair settles for 15 s. the C28 invariant is evaluated on both nodes after the interleaved phase and after every event of the settle phase.",
     level_note="Trusted: the harness wiring that mirrors Main (same constructors and order, no goroutines), the simulated socket/tun, and the invariant checker. Goroutine interleavings inside one node are not explored by this engine (single driver).",
     real=["HostMap, HandshakeManager, handshake.Machine, connectionManager, LightHouse, relayManager, Interface packet paths, Firewall, PKI, config reload (all real, wired like Main)"],
     stub=["UDP socket (simConn)", "tun device (simTun)", "goroutine loop shells (driver calls the loop bodies)", "wall clock (synctest bubble)", "crypto/rand (cryptotest seeded)"],
@@ -74,10 +74,10 @@ def engine_a(pid, **kw):
     check(pid, **kw)
 
 engine_a("C29",
-    scenarios=["C29.mesh"],
+    scenarios=["C29.mesh", "C29.gosched"], scenario_weight={"C29.gosched": 2},
     technique="deterministic whole-overlay simulation with the tunnel-index random source squeezed to 3-6 bits (collision/zero/retry branches constantly taken); index-uniqueness invariant after every event",
     rule="one run = a 3-5 node overlay (lighthouse, relay topology with blocked direct paths) for 15-45 s (thorough: up to 150 s) with index draws limited to 3-6 bits incl. zero, rehandshakes, closes, restarts, stalls, partitions; distinct = distinct abstract trace hash; non-trivial = index draws exceeded 3x the index space and a zero was drawn",
-    level_text="Seeded search over handshake/teardown/relay histories with a tiny index space: after every event every node's pending and established index maps and relay index map are checked (non-zero, one owner per index, one index per tunnel, no index shared between a pending and an established tunnel, an index or remote-index entry disappears only with its owner). Evidence, not proof. Goroutine-level races of the allocation paths are the engine-B part (not in this check).",
+    level_text="Seeded search over handshake/teardown/relay histories with a tiny index space: after every event every node's pending and established index maps and relay index map are checked (non-zero, one owner per index, one index per tunnel, no index shared between a pending and an established tunnel, an index or remote-index entry disappears only with its owner). Evidence, not proof. Goroutine-level races of the allocation paths are the engine-B part (not in this check). Plus engine B node-level interleavings (scenario C29.gosched): after a tape-drawn single-threaded prelude on a fault-free pair (pending handshake with queued packets / reply in flight / crossing handshakes / established), the roles of each node (udp reader delivering the held datagrams, tun reader sending marker packets, handshake timer, connection-manager tick, a control call) run as real goroutines parked at every lock acquisition of HostMap / HandshakeManager / per-handshake / LightHouse / RemoteList / RelayState / conntrack mutexes (verifRWMutex, tag verif) and released one at a time from the tape; then the pair settles for 15 s. index space squeezed to 3-6 bits; the C29 invariant is evaluated on both nodes after the interleaved phase and after every event of the settle phase.",
 )
 
 engine_a("C09",
@@ -131,10 +131,10 @@ engine_a("C31",
 )
 
 engine_a("C32",
-    scenarios=["C32.pending"],
+    scenarios=["C32.pending", "C32.gosched"], scenario_weight={"C32.gosched": 2},
     technique="deterministic simulation of an initiator (real HandshakeManager, timer wheel, firewall, config reload) against a peer that is unreachable / reachable from the k-th attempt, on the simulated clock; wire-level retransmission schedule, pending-state cleanup, queue cap and queue release checked against the statement",
     rule="one run = try interval (50-333 ms) x retries (2-12) x reachability (never, or from attempt k) x 0-150 packets sent while pending (ports inside/outside the outbound rule) x optional outbound-rule reload while queued x optional node stall; distinct = distinct abstract trace hash; non-trivial = at least two transmissions of the first handshake message were observed",
-    level_text="Seeded search over retry/queue histories on the simulated clock: every retransmission must be byte-identical, the k-th gap must lie in [k*I,(k+2)*I] (upper bound waived only across an injected stall), at most `retries` transmissions (exactly `retries` when the peer never answers), afterwards the pending entry and its index are gone, the queue never exceeds 100, and after completion the peer's tun receives exactly the queued packets the outbound rules in force at completion allow, once each and in queue order. Evidence, not proof.",
+    level_text="Seeded search over retry/queue histories on the simulated clock: every retransmission must be byte-identical, the k-th gap must lie in [k*I,(k+2)*I] (upper bound waived only across an injected stall), at most `retries` transmissions (exactly `retries` when the peer never answers), afterwards the pending entry and its index are gone, the queue never exceeds 100, and after completion the peer's tun receives exactly the queued packets the outbound rules in force at completion allow, once each and in queue order. Evidence, not proof. Plus engine B node-level interleavings (scenario C32.gosched): after a tape-drawn single-threaded prelude on a fault-free pair (pending handshake with queued packets / reply in flight / crossing handshakes / established), the roles of each node (udp reader delivering the held datagrams, tun reader sending marker packets, handshake timer, connection-manager tick, a control call) run as real goroutines parked at every lock acquisition of HostMap / HandshakeManager / per-handshake / LightHouse / RemoteList / RelayState / conntrack mutexes (verifRWMutex, tag verif) and released one at a time from the tape; then the pair settles for 15 s. every marker packet must reach the destination tun at most once, and exactly once when the run contains no close, no handshake timeout and no still-pending handshake at the end (queued packets released exactly once on completion, none lost between the queue snapshot and completion).",
     quick=tier(3000, 35),
 )
 
@@ -157,9 +157,10 @@ def hs_check(pid, **kw):
     check(pid, **kw)
 
 hs_check("C05",
-    technique="deterministic simulation of concurrent IX sessions between real handshake.Machines with an attacker owning the network (drop/dup/reorder/truncate/flip/splice/replay, forged identities); every completion checked against simulator ground truth",
+    pkg={"C05.hs": "handshake", "C05.mesh": "nebula"}, scenarios=["C05.hs", "C05.mesh"],
+    technique="deterministic whole-overlay simulation with a certificate thief (an uncertified party presenting a node's certificate, seen on the wire, with a static key of its own) and with reloads that blocklist a peer while the handshake to it is in flight (scenario C05.mesh, real HandshakeManager certificate verifier); and deterministic simulation of concurrent IX sessions between real handshake.Machines with an attacker owning the network (drop/dup/reorder/truncate/flip/splice/replay, forged identities); every completion checked against simulator ground truth",
     level_text="Seeded search over attacker-scheduled message histories: every Result a machine returns must report exactly the certificate its trust check accepted, whose key equals the Noise peer static, owned by an identity the reference trust table accepts at that time; an initiator may complete only on the unmodified reply of a responder that processed its unmodified first message (possession proof) and must report that responder's certificate; no machine completes twice. Responder-side completion on a replayed/forged first message carrying a valid certificate is allowed (IX semantics). Evidence, not proof.")
-hs_check("C06",
+hs_check("C06 C05.mesh (engine A, the C09 world): no node may install a tunnel from a handshake that presented another node's certificate with a foreign static key, whether or not it already holds a tunnel with the certificate's owner; a tunnel to a peer that appears on a node after a reload blocklisted that peer's certificate there is a violation (trust is evaluated when the peer's certificate is verified, not when the handshake was started).",
     technique="deterministic simulation of interleaved IX sessions (all curve/cipher/version mixes, tape-chosen index allocators incl. equal and extreme values); agreement of keys, indexes and message count checked for every session completed at both ends",
     level_text="Seeded search over session interleavings: when both ends of one session complete, each side's sending key must decrypt only with the other side's receiving key (not with its own, not with any machine of another session), remote index = peer's local index in both directions, equal message count, non-zero local indexes. Evidence, not proof.")
 hs_check("C07",
